@@ -190,7 +190,9 @@ class DensityMatrix(StateRepresentationBase):
                     f'measurement_determinism parameter must be "probabilistic", 0, or 1'
                 )
 
-            m, norm = projectors[outcome], probs[outcome]
+            # conditional probability of the outcome: a sub-normalized state (e.g. after photon loss) keeps its trace
+            total_weight = np.real(np.trace(self._data))
+            m, norm = projectors[outcome], probs[outcome] / total_weight
 
             # this assumes that the projector, m, has the properties: m = sqrt(m) and m = m.dag()
             self._data = (m @ self._data @ np.transpose(np.conjugate(m))) / norm
